@@ -40,6 +40,8 @@ RULE = (
     "digest. Distinct = distinct (routine, script, config)."
 )
 ASSUMPTIONS = [
+    "between the two compared runs other parts of the library are used (buffers of every class with "
+    "discrete actions, a schedule): process-level state left behind by them must not matter",
     "uninitialised memory is perturbed by filling freed heap blocks with run-specific values before each run "
     "(np.empty then returns them); a dependence on memory that the allocator does not recycle is out of reach",
     "bitwise comparison of nnx.state of every module / optimizer passed in or returned, replay-buffer arrays, "
@@ -268,13 +270,38 @@ def _poison_heap(k):
     del junk
 
 
+def _library_interference():
+    """Use other parts of the library between two runs: a result must not depend on what else ran in
+    the process (module-level state left behind by other buffers, selectors, schedules ...)."""
+    from rl_blox.blox import replay_buffer as rb
+    from rl_blox.blox.schedules import linear_schedule
+
+    r = np.random.default_rng(5)
+    for cls in (rb.ReplayBuffer, rb.LAP, rb.PrioritizedReplayBuffer):
+        b = cls(4, discrete_actions=True)
+        for i in range(5):
+            b.add_sample(observation=np.zeros(2), action=i % 2, reward=1.0, next_observation=np.ones(2), termination=0)
+        b.sample_batch(2, r)
+    for cls in (rb.SubtrajectoryReplayBuffer, rb.SubtrajectoryReplayBufferPER):
+        b = cls(8, horizon=2, discrete_actions=True)
+        for i in range(6):
+            b.add_sample(observation=np.zeros(2), action=i % 2, reward=1.0, next_observation=np.ones(2),
+                         terminated=int(i == 3), truncated=0)
+        b.sample_batch(2, 2, True, r)
+    mt = rb.MultiTaskReplayBuffer(rb.ReplayBuffer(4, discrete_actions=True), 2)
+    mt.add_sample(observation=np.zeros(2), action=1, reward=0.0, next_observation=np.ones(2), termination=1)
+    linear_schedule(7, 0.3, 0.9, 0.5)
+
+
 class _Perturb:
-    """Re-seed the global generators differently, shift the clock, poison freed heap memory."""
+    """Re-seed the global generators differently, shift the clock, poison freed heap memory, use other
+    parts of the library."""
 
     def __init__(self, k):
         self.k = k
 
     def __enter__(self):
+        _library_interference()
         _poison_heap(self.k)
         self.np_state = np.random.get_state()
         self.py_state = random.getstate()
